@@ -47,7 +47,34 @@ thread_local! {
     static CRUMB: std::cell::Cell<*mut u8> = const { std::cell::Cell::new(std::ptr::null_mut()) };
 }
 
+static CRUMB_TICKS: std::sync::atomic::AtomicU64 = std::sync::atomic::AtomicU64::new(0);
+
+/// For harnesses that leave a breadcrumb before every request: abort the process when no
+/// breadcrumb has been written for `limit_secs` (a request that never returns — e.g. an open of a
+/// FIFO that should have been refused — is then reported with its input like any other process death).
+pub fn watchdog(limit_secs: u64) {
+    std::thread::spawn(move || {
+        let mut last = CRUMB_TICKS.load(std::sync::atomic::Ordering::Relaxed);
+        let mut idle = 0u64;
+        loop {
+            std::thread::sleep(std::time::Duration::from_secs(1));
+            let now = CRUMB_TICKS.load(std::sync::atomic::Ordering::Relaxed);
+            if now == last {
+                idle += 1;
+                if idle >= limit_secs {
+                    eprintln!("watchdog: no request completed for {} s, aborting", limit_secs);
+                    unsafe { libc::abort() };
+                }
+            } else {
+                idle = 0;
+                last = now;
+            }
+        }
+    });
+}
+
 pub fn crumb(line: &str) {
+    CRUMB_TICKS.fetch_add(1, std::sync::atomic::Ordering::Relaxed);
     let dir = match CRUMB_DIR.get() {
         Some(d) => d,
         None => return,
